@@ -271,6 +271,7 @@ func mainRun(args []string) int {
 	shrinkSec := fs.Float64("shrink-seconds", 20, "")
 	hashesPath := fs.String("hashes", "", "determinism self-test: write per-scenario outcome hashes here")
 	capPath := fs.String("capture-fds", "", "redirect this process's real fd 1/2 to this file and watch it")
+	reverse := fs.Bool("reverse", false, "run this worker's scenarios from the last to the first (what the process has seen before differs then)")
 	fs.Parse(args)
 	if *capPath != "" {
 		captureRealFds(*capPath)
@@ -286,7 +287,16 @@ func mainRun(args []string) int {
 		Sigs: map[string]bool{}, Stats: map[string]int{}, NotJudged: map[string]int{}}
 	t0 := time.Now()
 	avoid := map[string]bool{}
+	var order []int
 	for idx := *worker; idx < *count; idx += *workers {
+		order = append(order, idx)
+	}
+	if *reverse {
+		for i, j := 0, len(order)-1; i < j; i, j = i+1, j-1 {
+			order[i], order[j] = order[j], order[i]
+		}
+	}
+	for _, idx := range order {
 		if *maxSec > 0 && time.Since(t0).Seconds() > *maxSec {
 			res.Stats["stopped-by-time"]++
 			break
